@@ -8,10 +8,13 @@
   (3) `EncOK`: the shape invariant that makes the compact Map encoder succeed, established by
       the Map decoder when no element key is read as an attribute key / the text key;
   (4) `SeqShaped`: the shape invariant under which `seqEnc` reaches none of its `.panic`
-      sites, established by the sequence decoder.
+      sites, established by the sequence decoder;
+  (5) `getJson` (total by structural recursion on the schedule) returns `.doc` only in the
+      form `{ … }`.
 -/
 import Mxj.Model.Seq
 import Mxj.Lemmas.Decode
+import Mxj.Lemmas.Stream
 namespace Mxj
 
 /-! ### (1) the Map decoder -/
@@ -492,6 +495,33 @@ def SeqShaped (c : SeqCfg) : Val → Bool
 
 def NoPanic {α : Type} (o : Outcome α) : Prop := ∀ site, o ≠ .panic site
 
+/-- the configuration keys the encoder dispatches on do not collide (true of the fixed keys
+    `#comment`, `#directive`, `#procinst`, `#attr` of xmlseq.go) -/
+def SeqCfg.keysOK (c : SeqCfg) : Bool :=
+  decide (c.procinstK ≠ c.commentK) && decide (c.procinstK ≠ c.directiveK) &&
+  decide (c.attrK ≠ c.commentK) && decide (c.attrK ≠ c.directiveK) && decide (c.attrK ≠ c.procinstK)
+
+/-- a key that is none of the comment / directive / procinst / attribute keys -/
+def plainKey (c : SeqCfg) (q : Str) : Bool :=
+  decide (q ≠ c.commentK) && decide (q ≠ c.directiveK) && decide (q ≠ c.procinstK) &&
+  decide (q ≠ c.attrK)
+
+/-- no element is named like one of the special keys (an XML name cannot start with `#`) -/
+def seqNamesOK (c : SeqCfg) (toks : List Tok) : Bool :=
+  toks.all fun t => match t with
+    | .start sp n _ => plainKey c (qualName c sp n)
+    | _ => true
+
+/-- the entries of an element under construction -/
+def naShaped (c : SeqCfg) (na : Entries) : Bool :=
+  attrsShaped (lookup c.attrK na) && shapedEntries c na
+
+/-- the value `seqElem` returns for an element: shaped entries, or a scalar (never a list) -/
+def resShaped (c : SeqCfg) : Val → Bool
+  | .map na => naShaped c na
+  | .list _ => false
+  | _ => true
+
 namespace Total
 
 theorem mem_insertBySeq (c : SeqCfg) (e x : Str × Val) : ∀ (l : List (Str × Val)),
@@ -661,8 +691,893 @@ theorem seqEnc_noPanic (c : SeqCfg) (esc goEmpty : Bool) : ∀ (f : Nat) (key : 
               simp only [attrsShaped, List.all_eq_true] at this
               exact seqAttrsText_noPanic c esc _ (fun e he => this e (mem_sortBySeq c e _ he))
             intro e
-            trace_state
-            sorry
+            split at e
+            · split at e
+              · split at e
+                · split at e
+                  · split at e <;> cases e
+                  · cases e
+                · split at e
+                  · cases e
+                  · cases e
+                  · exact hk site e
+              · split at e
+                · cases e
+                · split at e
+                  · cases e
+                  · exact hk site e
+            · cases e
+            · cases e
+            · cases e
+            · rename_i s' heq
+              split at heq
+              · rename_i av hl
+                have := ha av hl
+                split at heq
+                · cases heq
+                · cases heq
+                · cases heq
+                · cases heq
+                · rename_i s'' hA
+                  exact this s'' hA
+              · cases heq
+
+/-- `msv.Xml()` on a shaped MapSeq never panics -/
+theorem mapSeqXml_noPanic (c : SeqCfg) (esc goEmpty : Bool) (m : Entries)
+    (h : SeqShaped c (.map m) = true) : NoPanic (mapSeqXml c esc goEmpty m) := by
+  match m, h with
+  | [(key, v)], h =>
+    simp only [SeqShaped, Bool.and_eq_true, Bool.not_eq_true'] at h
+    cases v with
+    | list xs => simp [Val.isList] at h
+    | null => simp only [mapSeqXml]; exact seqEnc_noPanic c esc goEmpty _ key _ h.2
+    | bool b => simp only [mapSeqXml]; exact seqEnc_noPanic c esc goEmpty _ key _ h.2
+    | num t => simp only [mapSeqXml]; exact seqEnc_noPanic c esc goEmpty _ key _ h.2
+    | str t => simp only [mapSeqXml]; exact seqEnc_noPanic c esc goEmpty _ key _ h.2
+    | map kvs => simp only [mapSeqXml]; exact seqEnc_noPanic c esc goEmpty _ key _ h.2
+  | [], h => simp [SeqShaped] at h
+  | _ :: _ :: _, h => simp [SeqShaped] at h
+
+/-! the decoder establishes the invariant -/
+
+def EntryOK (c : SeqCfg) (k : Str) (v : Val) : Prop :=
+  k = c.attrK ∨ k = c.seqK ∨ k = c.textK ∨ shapedAt c k v = true
+
+theorem shapedEntries_cons (c : SeqCfg) (k : Str) (v : Val) (rest : Entries) :
+    shapedEntries c ((k, v) :: rest) = true ↔ EntryOK c k v ∧ shapedEntries c rest = true := by
+  simp only [shapedEntries, Bool.and_eq_true, Bool.or_eq_true, decide_eq_true_eq, EntryOK, or_assoc]
+
+theorem shapedEntries_insert (c : SeqCfg) (k : Str) (v : Val) (hv : EntryOK c k v) :
+    ∀ (na : Entries), shapedEntries c na = true → shapedEntries c (insert k v na) = true
+  | [], _ => by
+      simp only [insert]
+      exact (shapedEntries_cons c k v []).2 ⟨hv, rfl⟩
+  | (k', v') :: rest, h => by
+      rw [shapedEntries_cons] at h
+      simp only [insert]
+      split
+      · exact (shapedEntries_cons c k v rest).2 ⟨hv, h.2⟩
+      · exact (shapedEntries_cons c k' v' _).2 ⟨h.1, shapedEntries_insert c k v hv rest h.2⟩
+
+theorem shapedEntries_lookup (c : SeqCfg) (k : Str) (v : Val) :
+    ∀ (na : Entries), shapedEntries c na = true → lookup k na = some v → EntryOK c k v
+  | [], _, hl => by simp [lookup] at hl
+  | (k', v') :: rest, h, hl => by
+      rw [shapedEntries_cons] at h
+      simp only [lookup] at hl
+      split at hl
+      · rename_i hk
+        subst hk
+        cases hl
+        exact h.1
+      · exact shapedEntries_lookup c k v rest h.2 hl
+
+theorem naShaped_insert (c : SeqCfg) (k : Str) (v : Val) (na : Entries)
+    (hna : naShaped c na = true) (hv : EntryOK c k v)
+    (ha : k = c.attrK → attrsShaped (some v) = true) : naShaped c (insert k v na) = true := by
+  simp only [naShaped, Bool.and_eq_true] at hna ⊢
+  refine ⟨?_, shapedEntries_insert c k v hv na hna.2⟩
+  rw [Dec.lookup_insert]
+  split
+  · rename_i hk; exact ha hk.symm
+  · exact hna.1
+
+theorem attrsShaped_scalar {v : Val} (h : Dec.scalar v = true) : attrsShaped (some v) = true := by
+  cases v <;> simp [Dec.scalar, attrsShaped] at h ⊢
+
+theorem naShaped_insert_text (c : SeqCfg) (x : Val) (na : Entries) (hna : naShaped c na = true)
+    (hx : Dec.scalar x = true) : naShaped c (insert c.textK x na) = true :=
+  naShaped_insert c _ _ na hna (.inr (.inr (.inl rfl))) (fun _ => attrsShaped_scalar hx)
+
+theorem naShaped_insert_seq (c : SeqCfg) (n : Nat) (na : Entries) (hna : naShaped c na = true) :
+    naShaped c (insert c.seqK (seqNum n) na) = true :=
+  naShaped_insert c _ _ na hna (.inr (.inl rfl)) (fun _ => rfl)
+
+theorem shapedAt_plain (c : SeqCfg) (k : Str) (X : Entries) (hk : plainKey c k = true) :
+    shapedAt c k (.map X) = naShaped c X := by
+  simp only [plainKey, Bool.and_eq_true, decide_eq_true_eq] at hk
+  simp only [shapedAt, naShaped, if_neg hk.1.1.1, if_neg hk.1.1.2, if_neg hk.1.2]
+
+theorem naShaped_comment (c : SeqCfg) (hc : c.keysOK = true) (s : Str) (n : Nat) (na : Entries)
+    (hna : naShaped c na = true) :
+    naShaped c (insert c.commentK (.map [(c.textK, .str s), (c.seqK, seqNum n)]) na) = true := by
+  simp only [SeqCfg.keysOK, Bool.and_eq_true, decide_eq_true_eq] at hc
+  refine naShaped_insert c _ _ na hna (.inr (.inr (.inr ?_))) (fun h => absurd h.symm hc.1.1.2)
+  simp [shapedAt, lookup, strOf]
+
+theorem naShaped_directive (c : SeqCfg) (hc : c.keysOK = true) (s : Str) (n : Nat) (na : Entries)
+    (hna : naShaped c na = true) :
+    naShaped c (insert c.directiveK (.map [(c.textK, .str s), (c.seqK, seqNum n)]) na) = true := by
+  simp only [SeqCfg.keysOK, Bool.and_eq_true, decide_eq_true_eq] at hc
+  refine naShaped_insert c _ _ na hna (.inr (.inr (.inr ?_))) (fun h => absurd h.symm hc.1.2)
+  by_cases h : c.directiveK = c.commentK <;> simp [shapedAt, lookup, strOf, h]
+
+theorem naShaped_procinst (c : SeqCfg) (hc : c.keysOK = true) (t i : Str) (n : Nat) (na : Entries)
+    (hna : naShaped c na = true) :
+    naShaped c (insert c.procinstK
+      (.map [(c.targetK, .str t), (c.instK, .str i), (c.seqK, seqNum n)]) na) = true := by
+  simp only [SeqCfg.keysOK, Bool.and_eq_true, decide_eq_true_eq] at hc
+  refine naShaped_insert c _ _ na hna (.inr (.inr (.inr ?_))) (fun h => absurd h.symm hc.2)
+  by_cases h : c.instK = c.targetK <;>
+    simp [shapedAt, lookup, strOf, h, hc.1.1.1.1, hc.1.1.1.2]
+
+theorem shapedList_append (c : SeqCfg) (key : Str) : ∀ (xs ys : List Val),
+    shapedList c key (xs ++ ys) = (shapedList c key xs && shapedList c key ys)
+  | [], ys => by simp [shapedList]
+  | x :: xs, ys => by
+      simp only [List.cons_append, shapedList, shapedList_append c key xs ys, Bool.and_assoc]
+
+theorem naShaped_addChild (c : SeqCfg) (k : Str) (v : Val) (na : Entries)
+    (hna : naShaped c na = true) (hk : plainKey c k = true) (hv : shapedAt c k v = true) :
+    naShaped c (addChild na k v) = true := by
+  have hka : ¬ k = c.attrK := by
+    simp only [plainKey, Bool.and_eq_true, decide_eq_true_eq] at hk
+    exact hk.2
+  have hold : ∀ old, lookup k na = some old → EntryOK c k old := by
+    intro old hl
+    simp only [naShaped, Bool.and_eq_true] at hna
+    exact shapedEntries_lookup c k old na hna.2 hl
+  have skip : ∀ w, (k = c.seqK ∨ k = c.textK) → EntryOK c k w := by
+    intro w h
+    rcases h with h | h
+    · exact .inr (.inl h)
+    · exact .inr (.inr (.inl h))
+  have key : ∀ w, (∀ old, lookup k na = some old → shapedAt c k old = true → shapedAt c k w = true) →
+      (lookup k na = none → shapedAt c k w = true) → naShaped c (insert k w na) = true := by
+    intro w h1 h2
+    refine naShaped_insert c k w na hna ?_ (fun h => absurd h hka)
+    cases hl : lookup k na with
+    | none => exact .inr (.inr (.inr (h2 hl)))
+    | some old =>
+      rcases hold old hl with h | h | h | h
+      · exact absurd h hka
+      · exact skip w (.inl h)
+      · exact skip w (.inr h)
+      · exact .inr (.inr (.inr (h1 old hl h)))
+  unfold addChild
+  cases hl : lookup k na with
+  | none => exact key v (fun old h => by rw [hl] at h; cases h) (fun _ => hv)
+  | some old =>
+    cases old with
+    | list xs =>
+      refine key _ (fun old h ho => ?_) (fun h => by rw [hl] at h; cases h)
+      rw [hl] at h
+      cases h
+      simp only [shapedAt] at ho ⊢
+      rw [shapedList_append, ho]
+      simp [shapedList, hv]
+    | null =>
+      refine key _ (fun old h ho => ?_) (fun h => by rw [hl] at h; cases h)
+      rw [hl] at h; cases h
+      simp [shapedAt, shapedList, hv]
+    | bool b =>
+      refine key _ (fun old h ho => ?_) (fun h => by rw [hl] at h; cases h)
+      rw [hl] at h; cases h
+      simp [shapedAt, shapedList, hv]
+    | num t =>
+      refine key _ (fun old h ho => ?_) (fun h => by rw [hl] at h; cases h)
+      rw [hl] at h; cases h
+      simp [shapedAt, shapedList, hv]
+    | str t =>
+      refine key _ (fun old h ho => ?_) (fun h => by rw [hl] at h; cases h)
+      rw [hl] at h; cases h
+      simp [shapedAt, shapedList, hv]
+    | map kvs =>
+      refine key _ (fun old h ho => ?_) (fun h => by rw [hl] at h; cases h)
+      rw [hl] at h; cases h
+      simp only [shapedAt, shapedList, Bool.and_true, Bool.and_eq_true] at ho ⊢
+      exact ⟨by simpa [shapedAt] using ho, hv⟩
+
+theorem shapedAt_seqChild (c : SeqCfg) (k : Str) (seq : Nat) (v : Val)
+    (hk : plainKey c k = true) (hv : resShaped c v = true) :
+    shapedAt c k (seqChild c seq v) = true := by
+  have leaf : ∀ s : Val, s.isMap = false →
+      shapedAt c k (.map [(c.textK, s), (c.seqK, seqNum seq)]) = true := by
+    intro s hs
+    rw [shapedAt_plain c k _ hk]
+    simp only [naShaped, Bool.and_eq_true]
+    refine ⟨?_, ?_⟩
+    · simp only [lookup]
+      split
+      · cases s <;> simp [Val.isMap, attrsShaped] at hs ⊢
+      · split <;> rfl
+    · simp [shapedEntries]
+  cases v with
+  | map kvs =>
+    simp only [seqChild]
+    rw [shapedAt_plain c k _ hk]
+    exact naShaped_insert_seq c seq kvs hv
+  | null => exact leaf _ rfl
+  | bool b => exact leaf _ rfl
+  | num t => exact leaf _ rfl
+  | str t => exact leaf _ rfl
+  | list xs => exact leaf _ rfl
+
+theorem allMaps_insert (k : Str) (v : Val) (hv : v.isMap = true) : ∀ (l : Entries),
+    l.all (fun e => e.2.isMap) = true → (insert k v l).all (fun e => e.2.isMap) = true
+  | [], _ => by simp [insert, hv]
+  | (k', v') :: rest, h => by
+      simp only [List.all_cons, Bool.and_eq_true] at h
+      simp only [insert]
+      split
+      · simp [hv, h.2]
+      · simp only [List.all_cons, Bool.and_eq_true]
+        exact ⟨h.1, allMaps_insert k v hv rest h.2⟩
+
+theorem allMaps_seqAttrs (c : SeqCfg) (S : Strconv) : ∀ (attrs : List Attr) (i : Nat) (acc : Entries),
+    acc.all (fun e => e.2.isMap) = true →
+      (seqAttrs c S i attrs acc).all (fun e => e.2.isMap) = true
+  | [], _, acc, h => by simpa [seqAttrs] using h
+  | a :: rest, i, acc, h => by
+      simp only [seqAttrs]
+      exact allMaps_seqAttrs c S rest (i + 1) _ (allMaps_insert _ _ rfl acc h)
+
+theorem naShaped_seqInitNa (c : SeqCfg) (S : Strconv) (attrs : List Attr) :
+    naShaped c (seqInitNa c S attrs) = true := by
+  simp only [seqInitNa]
+  split
+  · rfl
+  · simp only [naShaped, lookup, if_true, attrsShaped, Bool.and_eq_true]
+    exact ⟨allMaps_seqAttrs c S attrs 0 [] rfl, by simp [shapedEntries]⟩
+
+theorem seqNamesOK_cons (c : SeqCfg) (t : Tok) (rest : List Tok) (h : seqNamesOK c (t :: rest) = true) :
+    seqNamesOK c rest = true := by
+  simp only [seqNamesOK, List.all_cons, Bool.and_eq_true] at h ⊢
+  exact h.2
+
+/-- every value the element loop returns is shaped, and the unread tokens keep `seqNamesOK` -/
+theorem seqElem_shaped (c : SeqCfg) (S : Strconv) (fin : StreamEnd) (hc : c.keysOK = true) :
+    ∀ (f : Nat) (toks : List Tok) (skey : Str) (na : Entries) (seq : Nat)
+      (pend : Option (Str × Bool)) (v : Val) (r : List Tok),
+      seqNamesOK c toks = true → naShaped c na = true →
+      seqElem c S fin f skey na seq pend toks = .ok (v, r) →
+      resShaped c v = true ∧ seqNamesOK c r = true := by
+  intro f
+  induction f with
+  | zero => intro toks skey na seq pend v r _ _ h; simp [seqElem] at h
+  | succ f ih =>
+    intro toks skey na seq pend v r hn hna h
+    match toks with
+    | [] => cases fin <;> simp [seqElem] at h
+    | .stop sp n :: rest =>
+      simp only [seqElem] at h
+      split at h
+      · cases h
+      · simp only [Outcome.ok.injEq, Prod.mk.injEq] at h
+        obtain ⟨rfl, rfl⟩ := h
+        refine ⟨?_, seqNamesOK_cons c _ _ hn⟩
+        split
+        · rfl
+        · exact hna
+    | .text s :: rest =>
+      obtain ⟨na', seq', pend', hna', e⟩ := seqElem_text_step c S fin f skey na seq pend s rest
+        (fun x => naShaped c x = true) hna
+        (fun x hx => naShaped_insert_text c x na hna hx)
+        (fun x hx => naShaped_insert_seq c _ _ (naShaped_insert_text c x na hna hx))
+      rw [e] at h
+      exact ih rest _ _ _ _ _ _ (seqNamesOK_cons c _ _ hn) hna' h
+    | .comment s :: rest =>
+      simp only [seqElem] at h
+      exact ih rest _ _ _ _ _ _ (seqNamesOK_cons c _ _ hn) (naShaped_comment c hc s seq na hna) h
+    | .directive s :: rest =>
+      simp only [seqElem] at h
+      exact ih rest _ _ _ _ _ _ (seqNamesOK_cons c _ _ hn) (naShaped_directive c hc s seq na hna) h
+    | .procinst t i :: rest =>
+      simp only [seqElem] at h
+      exact ih rest _ _ _ _ _ _ (seqNamesOK_cons c _ _ hn) (naShaped_procinst c hc t i seq na hna) h
+    | .start sp name attrs :: rest =>
+      have hk : plainKey c (qualName c sp name) = true := by
+        simp only [seqNamesOK, List.all_cons, Bool.and_eq_true] at hn
+        exact hn.1
+      simp only [seqElem] at h
+      cases hp : seqElem c S fin f (qualName c sp name) (seqInitNa c S attrs) 0 none rest with
+      | ok p =>
+        obtain ⟨v1, r1⟩ := p
+        rw [hp] at h
+        have h1 := ih rest _ _ _ _ _ _ (seqNamesOK_cons c _ _ hn) (naShaped_seqInitNa c S attrs) hp
+        exact ih r1 _ _ _ _ _ _ h1.2
+          (naShaped_addChild c _ _ na hna hk (shapedAt_seqChild c _ seq v1 hk h1.1)) h
+      | eof => simp [hp] at h
+      | «syntax» => simp [hp] at h
+      | err k => simp [hp] at h
+      | panic s => simp [hp] at h
+
+/-- the sequence decoder establishes `SeqShaped` -/
+theorem seqTop_shaped (c : SeqCfg) (S : Strconv) (fin : StreamEnd) (hc : c.keysOK = true) :
+    ∀ (f : Nat) (toks : List Tok) (m : Val), seqNamesOK c toks = true →
+      seqTop c S fin f toks = .ok (.doc m) → SeqShaped c m = true := by
+  intro f
+  induction f with
+  | zero => intro toks m _ h; simp [seqTop] at h
+  | succ f ih =>
+    intro toks m hn h
+    match toks with
+    | [] => cases fin <;> simp [seqTop] at h
+    | .stop _ _ :: rest => simp [seqTop] at h
+    | .comment _ :: rest => simp [seqTop] at h
+    | .directive _ :: rest => simp [seqTop] at h
+    | .procinst _ _ :: rest => simp [seqTop] at h
+    | .text _ :: rest =>
+      simp only [seqTop] at h
+      exact ih rest m (seqNamesOK_cons c _ _ hn) h
+    | .start sp name attrs :: rest =>
+      have hk : plainKey c (qualName c sp name) = true := by
+        simp only [seqNamesOK, List.all_cons, Bool.and_eq_true] at hn
+        exact hn.1
+      simp only [seqTop] at h
+      cases hp : seqElem c S fin f (qualName c sp name) (seqInitNa c S attrs) 0 none rest with
+      | ok p =>
+        obtain ⟨v1, r1⟩ := p
+        rw [hp] at h
+        simp only [Outcome.ok.injEq, SeqTop.doc.injEq] at h
+        subst h
+        have h1 := seqElem_shaped c S fin hc f rest _ _ _ _ _ _ (seqNamesOK_cons c _ _ hn)
+          (naShaped_seqInitNa c S attrs) hp
+        simp only [SeqShaped, Bool.and_eq_true, Bool.not_eq_true']
+        cases v1 with
+        | map kvs => exact ⟨rfl, by rw [shapedAt_plain c _ _ hk]; exact h1.1⟩
+        | list xs => simp [resShaped] at h1
+        | null => exact ⟨rfl, by simp [shapedAt]⟩
+        | bool b => exact ⟨rfl, by simp [shapedAt]⟩
+        | num t => exact ⟨rfl, by simp [shapedAt]⟩
+        | str t => exact ⟨rfl, by simp [shapedAt]⟩
+      | eof => simp [hp] at h
+      | «syntax» => simp [hp] at h
+      | err k => simp [hp] at h
+      | panic s => simp [hp] at h
+
+end Total
+
+/-! ### (3) the Map encoder on decoder output -/
+
+/-- a key the encoder treats as a child-element key: neither an attribute key nor the text key -/
+def plainE (ec : EncCfg) (k : Str) : Bool := !isAttrK ec k && decide (k ≠ ec.textK)
+
+mutual
+/-- the shape the compact Map encoder accepts: in every map, the entries under attribute keys
+    and under the text key hold strings, numbers or booleans -/
+def encOK (ec : EncCfg) : Val → Bool
+  | .map kvs => encOKEntries ec kvs
+  | .list xs => encOKList ec xs
+  | _ => true
+def encOKList (ec : EncCfg) : List Val → Bool
+  | [] => true
+  | x :: xs => encOK ec x && encOKList ec xs
+def encOKEntries (ec : EncCfg) : Entries → Bool
+  | [] => true
+  | (k, v) :: rest => (plainE ec k || Dec.scalar v) && encOK ec v && encOKEntries ec rest
+end
+
+/-- no element key (after the decoder's key transforms) is read by the encoder as an attribute
+    key or as the text key -/
+def elemKeysOK (cfg : DecCfg) (S : Strconv) (ec : EncCfg) (toks : List Tok) : Bool :=
+  toks.all fun t => match t with
+    | .start _ n _ => plainE ec (elemKey cfg S n)
+    | _ => true
+
+namespace Total
+
+def encOKEntry (ec : EncCfg) (e : Str × Val) : Bool :=
+  (plainE ec e.1 || Dec.scalar e.2) && encOK ec e.2
+
+theorem encOKEntries_eq_all (ec : EncCfg) : ∀ (l : Entries),
+    encOKEntries ec l = l.all (encOKEntry ec)
+  | [] => rfl
+  | (k, v) :: rest => by
+      simp only [encOKEntries, List.all_cons, encOKEntry, encOKEntries_eq_all ec rest]
+
+theorem scalar_encOK (ec : EncCfg) {v : Val} (h : Dec.scalar v = true) : encOK ec v = true := by
+  cases v <;> simp [Dec.scalar, encOK] at h ⊢
+
+theorem all_insertByKey (p : Str × Val → Bool) (e : Str × Val) : ∀ (l : Entries),
+    (insertByKey e l).all p = (p e && l.all p)
+  | [] => by simp [insertByKey]
+  | x :: xs => by
+      simp only [insertByKey]
+      split
+      · simp only [List.all_cons, all_insertByKey p e xs]
+        cases p x <;> cases p e <;> simp
+      · simp only [List.all_cons]
+
+theorem all_sortByKey (p : Str × Val → Bool) : ∀ (l : Entries), (sortByKey l).all p = l.all p
+  | [] => rfl
+  | x :: xs => by
+      have : sortByKey (x :: xs) = insertByKey x (sortByKey xs) := rfl
+      rw [this, all_insertByKey, all_sortByKey p xs, List.all_cons]
+
+mutual
+theorem encOK_norm (ec : EncCfg) : ∀ (v : Val), encOK ec v = true → encOK ec v.norm = true
+  | .null, h => h
+  | .bool _, h => h
+  | .num _, h => h
+  | .str _, h => h
+  | .list xs, h => by
+      simp only [Val.norm, encOK] at h ⊢
+      exact encOKList_norm ec xs h
+  | .map kvs, h => by
+      simp only [Val.norm, encOK] at h ⊢
+      rw [encOKEntries_eq_all, all_sortByKey, ← encOKEntries_eq_all]
+      exact encOKEntries_norm ec kvs h
+theorem encOKList_norm (ec : EncCfg) : ∀ (xs : List Val), encOKList ec xs = true →
+    encOKList ec (Val.normList xs) = true
+  | [], h => h
+  | x :: xs, h => by
+      simp only [Val.normList, encOKList, Bool.and_eq_true] at h ⊢
+      exact ⟨encOK_norm ec x h.1, encOKList_norm ec xs h.2⟩
+theorem encOKEntries_norm (ec : EncCfg) : ∀ (l : Entries), encOKEntries ec l = true →
+    encOKEntries ec (Val.normEntries l) = true
+  | [], h => h
+  | (k, v) :: rest, h => by
+      simp only [Val.normEntries, encOKEntries, Bool.and_eq_true, Bool.or_eq_true] at h ⊢
+      refine ⟨⟨?_, encOK_norm ec v h.1.2⟩, encOKEntries_norm ec rest h.2⟩
+      rcases h.1.1 with h1 | h1
+      · exact .inl h1
+      · exact .inr (by rw [Dec.scalar_norm h1]; exact h1)
+end
+
+theorem attrText_ok (ec : EncCfg) (k : Str) {v : Val} (h : Dec.scalar v = true) :
+    ∃ a, attrText ec k v = .ok a := by
+  cases v <;> simp [Dec.scalar, attrText] at h ⊢
+
+theorem attrsText_ok (ec : EncCfg) : ∀ (l : Entries), encOKEntries ec l = true →
+    ∃ a, attrsText ec l = .ok a
+  | [], _ => ⟨[], rfl⟩
+  | (k, v) :: rest, h => by
+      simp only [encOKEntries, Bool.and_eq_true, Bool.or_eq_true] at h
+      obtain ⟨r, hr⟩ := attrsText_ok ec rest h.2
+      simp only [attrsText]
+      split
+      · rename_i hk
+        have hs : Dec.scalar v = true := by
+          rcases h.1.1 with h1 | h1
+          · simp [plainE, hk] at h1
+          · exact h1
+        obtain ⟨a, ha⟩ := attrText_ok ec k hs
+        rw [ha, hr]
+        exact ⟨_, rfl⟩
+      · exact ⟨r, hr⟩
+
+theorem encOKEntries_lookup (ec : EncCfg) (k : Str) (v : Val) : ∀ (l : Entries),
+    encOKEntries ec l = true → lookup k l = some v →
+      (plainE ec k = true ∨ Dec.scalar v = true) ∧ encOK ec v = true
+  | [], _, hl => by simp [lookup] at hl
+  | (k', v') :: rest, h, hl => by
+      simp only [encOKEntries, Bool.and_eq_true, Bool.or_eq_true] at h
+      simp only [lookup] at hl
+      split at hl
+      · rename_i hk
+        subst hk
+        cases hl
+        exact h.1
+      · exact encOKEntries_lookup ec k v rest h.2 hl
+
+theorem textValue_ok (ec : EncCfg) {v : Val} (h : Dec.scalar v = true) :
+    ∃ t, textValue ec v = some t := by
+  cases v with
+  | bool b => cases b <;> simp [textValue, fmtV]
+  | num t => simp [textValue, fmtV]
+  | str t => simp [textValue]
+  | null => simp [Dec.scalar] at h
+  | list xs => simp [Dec.scalar] at h
+  | map kvs => simp [Dec.scalar] at h
+
+mutual
+/-- on an `encOK` value the compact encoder returns no error -/
+theorem marshalN_ok (ec : EncCfg) : ∀ (key : Str) (v : Val), encOK ec v = true →
+    ∃ out, marshalN ec key v = .ok out
+  | key, .null, _ => by simp [marshalN]
+  | key, .bool b, _ => by cases b <;> simp [marshalN, fmtV]
+  | key, .num t, _ => by simp [marshalN, fmtV]
+  | key, .str s, _ => by simp [marshalN]
+  | key, .list xs, h => by
+      simp only [encOK] at h
+      simp only [marshalN]
+      split
+      · exact ⟨_, rfl⟩
+      · exact marshalMembers_ok ec key xs h
+  | key, .map vv, h => by
+      simp only [encOK] at h
+      obtain ⟨a, ha⟩ := attrsText_ok ec vv h
+      obtain ⟨kids, hk⟩ := marshalElems_ok ec vv h
+      simp only [marshalN, ha, hk]
+      split
+      · exact ⟨_, rfl⟩
+      · cases hl : lookup ec.textK vv with
+        | none => exact ⟨_, rfl⟩
+        | some tv =>
+          have hs : Dec.scalar tv = true := by
+            rcases (encOKEntries_lookup ec _ _ vv h hl).1 with h1 | h1
+            · simp [plainE] at h1
+            · exact h1
+          obtain ⟨t, ht⟩ := textValue_ok ec hs
+          simp only [ht]
+          split <;> exact ⟨_, rfl⟩
+theorem marshalMembers_ok (ec : EncCfg) (key : Str) : ∀ (xs : List Val), encOKList ec xs = true →
+    ∃ out, marshalMembers ec key xs = .ok out
+  | [], _ => ⟨[], rfl⟩
+  | x :: xs, h => by
+      simp only [encOKList, Bool.and_eq_true] at h
+      obtain ⟨a, ha⟩ := marshalN_ok ec key x h.1
+      obtain ⟨r, hr⟩ := marshalMembers_ok ec key xs h.2
+      simp only [marshalMembers, ha, hr]
+      exact ⟨_, rfl⟩
+theorem marshalElems_ok (ec : EncCfg) : ∀ (l : Entries), encOKEntries ec l = true →
+    ∃ out, marshalElems ec l = .ok out
+  | [], _ => ⟨[], rfl⟩
+  | (k, v) :: rest, h => by
+      simp only [encOKEntries, Bool.and_eq_true] at h
+      obtain ⟨a, ha⟩ := marshalN_ok ec k v h.1.2
+      obtain ⟨r, hr⟩ := marshalElems_ok ec rest h.2
+      simp only [marshalElems, ha, hr]
+      split <;> exact ⟨_, rfl⟩
+end
+
+theorem marshal_ok (ec : EncCfg) (key : Str) (v : Val) (h : encOK ec v = true) :
+    ∃ out, marshal ec key v = .ok out :=
+  marshalN_ok ec key v.norm (encOK_norm ec v h)
+
+/-- `mv.Xml()` on an `encOK` map returns no error -/
+theorem mapXml_ok (ec : EncCfg) (m : Entries) (h : encOK ec (.map m) = true) :
+    ∃ out, mapXml ec m none = .ok out := by
+  unfold mapXml
+  simp only
+  split
+  · rename_i key xs
+    split
+    · refine marshal_ok ec key _ ?_
+      simp only [encOK, encOKEntries, Bool.and_eq_true] at h
+      exact h.1.2
+    · exact marshal_ok ec _ _ h
+  · rename_i key v _
+    refine marshal_ok ec key _ ?_
+    simp only [encOK, encOKEntries, Bool.and_eq_true] at h
+    exact h.1.2
+  · exact marshal_ok ec _ _ h
+
+/-! the Map decoder establishes `encOK` -/
+
+theorem encOKEntries_insert (ec : EncCfg) (k : Str) (v : Val)
+    (hc : plainE ec k = true ∨ Dec.scalar v = true) (hv : encOK ec v = true) :
+    ∀ (na : Entries), encOKEntries ec na = true → encOKEntries ec (insert k v na) = true
+  | [], _ => by
+      simp only [insert, encOKEntries, Bool.and_eq_true, Bool.or_eq_true]
+      exact ⟨⟨hc, hv⟩, trivial⟩
+  | (k', v') :: rest, h => by
+      simp only [encOKEntries, Bool.and_eq_true, Bool.or_eq_true] at h
+      simp only [insert]
+      split
+      · simp only [encOKEntries, Bool.and_eq_true, Bool.or_eq_true]
+        exact ⟨⟨hc, hv⟩, h.2⟩
+      · simp only [encOKEntries, Bool.and_eq_true, Bool.or_eq_true]
+        exact ⟨h.1, encOKEntries_insert ec k v hc hv rest h.2⟩
+
+theorem encOKEntries_insert_scalar (ec : EncCfg) (k : Str) {v : Val} (hv : Dec.scalar v = true)
+    (na : Entries) (h : encOKEntries ec na = true) : encOKEntries ec (insert k v na) = true :=
+  encOKEntries_insert ec k v (.inr hv) (scalar_encOK ec hv) na h
+
+theorem encOKList_append (ec : EncCfg) : ∀ (xs ys : List Val),
+    encOKList ec (xs ++ ys) = (encOKList ec xs && encOKList ec ys)
+  | [], ys => by simp [encOKList]
+  | x :: xs, ys => by
+      simp only [List.cons_append, encOKList, encOKList_append ec xs ys, Bool.and_assoc]
+
+theorem encOKEntries_addChild (ec : EncCfg) (k : Str) (v : Val) (na : Entries)
+    (hk : plainE ec k = true) (hv : encOK ec v = true) (hna : encOKEntries ec na = true) :
+    encOKEntries ec (addChild na k v) = true := by
+  unfold addChild
+  cases hl : lookup k na with
+  | none => exact encOKEntries_insert ec k v (.inl hk) hv na hna
+  | some old =>
+    have ho := (encOKEntries_lookup ec k old na hna hl).2
+    cases old with
+    | list xs =>
+      refine encOKEntries_insert ec k _ (.inl hk) ?_ na hna
+      simp only [encOK] at ho ⊢
+      rw [encOKList_append, ho]
+      simp [encOKList, hv]
+    | null => exact encOKEntries_insert ec k _ (.inl hk) (by simp [encOK, encOKList, hv]) na hna
+    | bool b => exact encOKEntries_insert ec k _ (.inl hk) (by simp [encOK, encOKList, hv]) na hna
+    | num t => exact encOKEntries_insert ec k _ (.inl hk) (by simp [encOK, encOKList, hv]) na hna
+    | str t => exact encOKEntries_insert ec k _ (.inl hk) (by simp [encOK, encOKList, hv]) na hna
+    | map kvs =>
+      refine encOKEntries_insert ec k _ (.inl hk) ?_ na hna
+      simp only [encOK, encOKList, Bool.and_true, Bool.and_eq_true]
+      exact ⟨by simpa [encOK] using ho, hv⟩
+
+theorem encOK_seqDecorate (ec : EncCfg) (cfg : DecCfg) (seq : Nat) (v : Val)
+    (hv : encOK ec v = true) : encOK ec (seqDecorate cfg seq v).1 = true := by
+  unfold seqDecorate
+  split
+  · exact hv
+  · cases v with
+    | list xs => exact hv
+    | null => exact hv
+    | map kvs =>
+      simp only [encOK] at hv ⊢
+      exact encOKEntries_insert_scalar ec _ rfl kvs hv
+    | bool b =>
+      simp only [encOK]
+      exact encOKEntries_insert_scalar ec _ rfl _ (by simp [encOKEntries, Dec.scalar, encOK])
+    | num t =>
+      simp only [encOK]
+      exact encOKEntries_insert_scalar ec _ rfl _ (by simp [encOKEntries, Dec.scalar, encOK])
+    | str t =>
+      simp only [encOK]
+      exact encOKEntries_insert_scalar ec _ rfl _ (by simp [encOKEntries, Dec.scalar, encOK])
+
+def optScalar : Option Val → Prop
+  | some x => Dec.scalar x = true
+  | none => True
+
+theorem encOK_finishElem (ec : EncCfg) (cfg : DecCfg) (na : Entries) (n : Option Val)
+    (hna : encOKEntries ec na = true) (hn : optScalar n) : encOK ec (finishElem cfg na n) = true := by
+  unfold finishElem
+  cases n with
+  | none =>
+    simp only
+    split
+    · rfl
+    · exact hna
+  | some x =>
+    simp only
+    split
+    · exact scalar_encOK ec hn
+    · simp only [encOK]
+      exact encOKEntries_insert_scalar ec _ hn na hna
+
+theorem encOK_onText (ec : EncCfg) (cfg : DecCfg) (S : Strconv) (skey : Str) (na : Entries)
+    (n : Option Val) (s : Str) (hna : encOKEntries ec na = true) (hn : optScalar n) :
+    encOKEntries ec (onText cfg S skey na n s).1 = true ∧ optScalar (onText cfg S skey na n s).2 := by
+  unfold onText
+  simp only
+  split
+  · exact ⟨hna, hn⟩
+  · split
+    · exact ⟨encOKEntries_insert_scalar ec _ (Dec.cast_scalar _ _ _ _) na hna, hn⟩
+    · exact ⟨hna, Dec.cast_scalar _ _ _ _⟩
+
+theorem encOK_loadAttrs (ec : EncCfg) (cfg : DecCfg) (S : Strconv) (attrs : List Attr) :
+    encOKEntries ec (loadAttrs cfg S attrs) = true := by
+  unfold loadAttrs
+  suffices h : ∀ (l : List Attr) (acc : Entries), encOKEntries ec acc = true →
+      encOKEntries ec (l.foldl (fun na a =>
+        let key := attrKey cfg S a.name
+        insert key (cast S cfg.cast (escDecIf cfg a.value) key) na) acc) = true from h attrs [] rfl
+  intro l
+  induction l with
+  | nil => intro acc h; exact h
+  | cons a rest ih =>
+    intro acc h
+    simp only [List.foldl_cons]
+    exact ih _ (encOKEntries_insert_scalar ec _ (Dec.cast_scalar _ _ _ _) acc h)
+
+theorem elemKeysOK_cons (cfg : DecCfg) (S : Strconv) (ec : EncCfg) (t : Tok) (rest : List Tok)
+    (h : elemKeysOK cfg S ec (t :: rest) = true) : elemKeysOK cfg S ec rest = true := by
+  simp only [elemKeysOK, List.all_cons, Bool.and_eq_true] at h ⊢
+  exact h.2
+
+/-- every value the element loop returns is `encOK` -/
+theorem parseElem_encOK (cfg : DecCfg) (S : Strconv) (fin : StreamEnd) (ec : EncCfg) :
+    ∀ (f : Nat) (toks : List Tok) (skey : Str) (na : Entries) (n : Option Val) (seq : Nat)
+      (pend : Option Str) (v : Val) (r : List Tok),
+      elemKeysOK cfg S ec toks = true → encOKEntries ec na = true → optScalar n →
+      parseElem cfg S fin f skey na n seq pend toks = .ok (v, r) →
+      encOK ec v = true ∧ elemKeysOK cfg S ec r = true := by
+  intro f
+  induction f with
+  | zero => intro toks skey na n seq pend v r _ _ _ h; simp [parseElem] at h
+  | succ f ih =>
+    intro toks skey na n seq pend v r hk hna hn h
+    match toks with
+    | [] => cases fin <;> simp [parseElem] at h
+    | .stop _ _ :: rest =>
+      simp only [parseElem, Outcome.ok.injEq, Prod.mk.injEq] at h
+      obtain ⟨rfl, rfl⟩ := h
+      exact ⟨encOK_finishElem ec cfg na n hna hn, elemKeysOK_cons cfg S ec _ _ hk⟩
+    | .text s :: rest =>
+      simp only [parseElem] at h
+      have h1 := encOK_onText ec cfg S skey na n (pend.getD [] ++ s) hna hn
+      exact ih rest _ _ _ _ _ _ _ (elemKeysOK_cons cfg S ec _ _ hk) h1.1 h1.2 h
+    | .comment _ :: rest =>
+      simp only [parseElem] at h
+      exact ih rest _ _ _ _ _ _ _ (elemKeysOK_cons cfg S ec _ _ hk) hna hn h
+    | .procinst _ _ :: rest =>
+      simp only [parseElem] at h
+      exact ih rest _ _ _ _ _ _ _ (elemKeysOK_cons cfg S ec _ _ hk) hna hn h
+    | .directive _ :: rest =>
+      simp only [parseElem] at h
+      exact ih rest _ _ _ _ _ _ _ (elemKeysOK_cons cfg S ec _ _ hk) hna hn h
+    | .start sp name attrs :: rest =>
+      have hp : plainE ec (elemKey cfg S name) = true := by
+        simp only [elemKeysOK, List.all_cons, Bool.and_eq_true] at hk
+        exact hk.1
+      simp only [parseElem] at h
+      cases hc : parseElem cfg S fin f (elemKey cfg S name) (loadAttrs cfg S attrs) none 0 none rest with
+      | ok p =>
+        obtain ⟨v1, r1⟩ := p
+        rw [hc] at h
+        have h1 := ih rest _ _ none _ _ _ _ (elemKeysOK_cons cfg S ec _ _ hk)
+          (encOK_loadAttrs ec cfg S attrs) trivial hc
+        simp only at h
+        exact ih r1 _ _ _ _ _ _ _ h1.2
+          (encOKEntries_addChild ec _ _ na hp (encOK_seqDecorate ec cfg seq v1 h1.1) hna) hn h
+      | eof => simp [hc] at h
+      | «syntax» => simp [hc] at h
+      | err k => simp [hc] at h
+      | panic s => simp [hc] at h
+
+theorem decodeTop_encOK (cfg : DecCfg) (S : Strconv) (fin : StreamEnd) (ec : EncCfg) :
+    ∀ (f : Nat) (toks : List Tok) (v : Val) (r : List Tok), elemKeysOK cfg S ec toks = true →
+      decodeTop cfg S fin f toks = .ok (v, r) → encOK ec v = true := by
+  intro f
+  induction f with
+  | zero => intro toks v r _ h; simp [decodeTop] at h
+  | succ f ih =>
+    intro toks v r hk h
+    match toks with
+    | [] => cases fin <;> simp [decodeTop] at h
+    | .stop _ _ :: rest =>
+      simp only [decodeTop] at h; exact ih rest v r (elemKeysOK_cons cfg S ec _ _ hk) h
+    | .text _ :: rest =>
+      simp only [decodeTop] at h; exact ih rest v r (elemKeysOK_cons cfg S ec _ _ hk) h
+    | .comment _ :: rest =>
+      simp only [decodeTop] at h; exact ih rest v r (elemKeysOK_cons cfg S ec _ _ hk) h
+    | .procinst _ _ :: rest =>
+      simp only [decodeTop] at h; exact ih rest v r (elemKeysOK_cons cfg S ec _ _ hk) h
+    | .directive _ :: rest =>
+      simp only [decodeTop] at h; exact ih rest v r (elemKeysOK_cons cfg S ec _ _ hk) h
+    | .start sp name attrs :: rest =>
+      have hp : plainE ec (elemKey cfg S name) = true := by
+        simp only [elemKeysOK, List.all_cons, Bool.and_eq_true] at hk
+        exact hk.1
+      simp only [decodeTop] at h
+      cases hc : parseElem cfg S fin f (elemKey cfg S name) (loadAttrs cfg S attrs) none 0 none rest with
+      | ok p =>
+        obtain ⟨v1, r1⟩ := p
+        rw [hc] at h
+        simp only [Outcome.ok.injEq, Prod.mk.injEq] at h
+        obtain ⟨rfl, rfl⟩ := h
+        have h1 := parseElem_encOK cfg S fin ec f rest _ _ none _ _ _ _
+          (elemKeysOK_cons cfg S ec _ _ hk) (encOK_loadAttrs ec cfg S attrs) trivial hc
+        simp only [encOK, encOKEntries, Bool.and_eq_true, Bool.or_eq_true]
+        exact ⟨⟨.inl hp, h1.1⟩, trivial⟩
+      | eof => simp [hc] at h
+      | «syntax» => simp [hc] at h
+      | err k => simp [hc] at h
+      | panic s => simp [hc] at h
+
+theorem newMapXml_encOK (cfg : DecCfg) (S : Strconv) (ec : EncCfg) (toks : List Tok)
+    (fin : StreamEnd) (v : Val) (hk : elemKeysOK cfg S ec toks = true)
+    (h : newMapXml cfg S toks fin = .ok v) : encOK ec v = true := by
+  unfold newMapXml at h
+  cases hc : decodeTop cfg S fin (toks.length + 1) toks with
+  | ok p =>
+    obtain ⟨v1, r1⟩ := p
+    rw [hc] at h
+    simp only [Outcome.ok.injEq] at h
+    subst h
+    exact decodeTop_encOK cfg S fin ec _ toks _ r1 hk hc
+  | eof => simp [hc] at h
+  | «syntax» => simp [hc] at h
+  | err k => simp [hc] at h
+  | panic s => simp [hc] at h
+
+end Total
+
+/-! ### (5) the `getJson` scanner -/
+
+namespace Total
+open Mxj.Stream
+
+/-- scanner invariant: nothing is collected before the first `{`, and what is collected
+    starts with it (`jb` is kept reversed) -/
+def JInv (st : JState) : Prop :=
+  (st.inJson = false → st.jb = []) ∧ (st.inJson = true → st.jb.getLast? = some '{')
+
+def docShape : JRes → Prop
+  | .doc raw => raw.head? = some '{' ∧ raw.getLast? = some '}'
+  | _ => True
+
+theorem getLast?_cons_of (c : Char) (l : List Char) (x : Char) (h : l.getLast? = some x) :
+    (c :: l).getLast? = some x := by
+  cases l with
+  | nil => simp at h
+  | cons a as => simpa [List.getLast?_cons_cons] using h
+
+theorem shape_of (l : List Char) (x : Char) (h : l.getLast? = some x) :
+    (l.reverse ++ ['}']).head? = some x ∧ (l.reverse ++ ['}']).getLast? = some '}' := by
+  refine ⟨?_, by simp⟩
+  have := List.head?_reverse (l := l)
+  rw [h] at this
+  cases hr : l.reverse with
+  | nil => rw [hr] at this; simp at this
+  | cons y t => rw [hr] at this; simpa using this
+
+set_option linter.unusedSimpArgs false in
+theorem stepJ_inv (c : Char) (st : JState) (h : JInv st) :
+    match stepJ c st with
+    | .inl r => docShape r
+    | .inr st' => JInv st' := by
+  obtain ⟨jb, inQuote, inJson, paren, escaped⟩ := st
+  obtain ⟨h1, h2⟩ := h
+  simp only at h1 h2
+  unfold stepJ
+  simp only
+  by_cases c1 : c = '{'
+  · subst c1
+    cases inQuote <;> cases inJson <;> simp [JInv] at h1 h2 ⊢
+    all_goals first
+      | exact getLast?_cons_of _ _ _ h2
+      | (subst h1; simp)
+  · simp only [c1, if_false]
+    by_cases c2 : c = '}'
+    · subst c2
+      cases inQuote <;> cases inJson <;> simp [JInv, docShape] at h1 h2 ⊢
+      all_goals first
+      | exact h1
+      | exact getLast?_cons_of _ _ _ h2
+      | (by_cases hp : paren = 0 <;> simp [hp, h1]; done)
+      | (by_cases hp : paren = 0 <;> by_cases hp2 : paren - 1 = 0 <;>
+          simp [hp, hp2, getLast?_cons_of _ _ _ h2, shape_of _ _ h2]; done)
+      | (by_cases hw : isJsonWs c = true <;> simp [hw, h2, getLast?_cons_of _ _ _ h2]; done)
+    · simp only [c2, if_false]
+      by_cases c3 : c = '"'
+      · subst c3
+        cases inQuote <;> cases inJson <;> simp [JInv] at h1 h2 ⊢
+        all_goals first
+        | exact h1
+        | exact getLast?_cons_of _ _ _ h2
+        | (by_cases hp : paren = 0 <;> simp [hp, h1]; done)
+        | (by_cases hp : paren = 0 <;> by_cases hp2 : paren - 1 = 0 <;>
+            simp [hp, hp2, getLast?_cons_of _ _ _ h2, shape_of _ _ h2]; done)
+        | (by_cases hw : isJsonWs c = true <;> simp [hw, h2, getLast?_cons_of _ _ _ h2]; done)
+      · simp only [c3, if_false]
+        cases inQuote <;> cases inJson <;> simp [JInv] at h1 h2 ⊢
+        all_goals first
+        | exact h1
+        | exact getLast?_cons_of _ _ _ h2
+        | (by_cases hp : paren = 0 <;> simp [hp, h1]; done)
+        | (by_cases hp : paren = 0 <;> by_cases hp2 : paren - 1 = 0 <;>
+            simp [hp, hp2, getLast?_cons_of _ _ _ h2, shape_of _ _ h2]; done)
+        | (by_cases hw : isJsonWs c = true <;> simp [hw, h2, getLast?_cons_of _ _ _ h2]; done)
+
+/-- `getJson` hands out a document only in the form `{ … }` -/
+theorem getJson_docShape : ∀ (s : Sched) (st : JState), JInv st → docShape (getJson s st).1 := by
+  intro s
+  induction s with
+  | nil => intro st _; rw [getJson_nil]; simp only [endRes]; split <;> trivial
+  | cons r rest ih =>
+    intro st h
+    cases r with
+    | zero => rw [getJson_zero]; exact ih st h
+    | zeroEof => rw [getJson_zeroEof]; simp only [endRes]; split <;> trivial
+    | fail => rw [getJson_fail]; trivial
+    | byte c e =>
+      rw [getJson_byte]
+      have h1 := stepJ_inv c st h
+      cases hs : stepJ c st with
+      | inl r => rw [hs] at h1; exact h1
+      | inr st' => rw [hs] at h1; exact ih st' h1
 
 end Total
 end Mxj
